@@ -72,6 +72,27 @@ def run(repo, res):
     res.check('C11-R3', 'find_id_loc fallback', isinstance(last, ast.Return) and unparse(last.value) == 'start',
               SCOPE, last.lineno, 'when the identifier is not found find_id_loc must fall back to the statement start')
 
+    # the delimiter sets of the text search must not contain identifier characters: otherwise a longer identifier that
+    # merely starts or ends with the searched name is accepted as the name
+    from ..absint import Interp
+    from ..facts import get_facts
+    import string as _string
+    it = Interp(repo, get_facts(repo))
+    ident_chars = set(_string.ascii_letters + _string.digits + '_')
+    used = sorted({n.id for n in ast.walk(fid) if isinstance(n, ast.Name) and n.id.isupper()})
+    for const in used:
+        try:
+            val = it.lookup_global(SCOPE, const)
+        except Exception:
+            val = None
+        if not isinstance(val, str):
+            continue
+        overlap = sorted(set(val) & ident_chars)
+        res.check('C11-R3', 'find_id_loc delimiter set %s' % const, not overlap, SCOPE, fid.lineno,
+                  'the delimiter set %s of the identifier text search contains identifier characters %s: `import json_tool, json` '
+                  'then finds "json" inside "json_tool" and reports that position' % (const, overlap),
+                  sample='%s contains no identifier character' % const)
+
     # ---- R2 positions are copied --------------------------------------------------------------
     uses = []
     for rel in (LINTER, ASSIST, 'supp/evaluator.py', 'supp/server.py'):
